@@ -108,6 +108,43 @@ def sweep(ctx, n):
                     if not np.allclose(full[j], step, rtol=1e-9, atol=1e-9 * sc):
                         bad(f"interface:{cls}:sensor-path:{kind}", f"sensor with a {kind} path differs at step {j} from a static sensor at that pose", {"class": cls, "field": X, "kind": kind})
                         break
+            # the SAME object asked again after it was edited (attribute assignment; for a mesh: faces repaired by
+            # reorient_faces() after a first evaluation): every object-oriented form must follow the object's current
+            # attributes, i.e. agree with the functional interface fed with the values read back from the object
+            if i % 3 == 0:
+                esrc, what = src.copy(), None  # (a copy: the later comparisons of this case still use `src` as it was)
+                if cls == "TriangularMesh":
+                    v, f = np.asarray(src.vertices, float), np.array(src.faces)
+                    flip = nps.random(len(f)) < 0.4
+                    flip[0] = True
+                    f[flip] = f[flip][:, ::-1]
+                    esrc = magpy.magnet.TriangularMesh(vertices=v, faces=f, polarization=src.polarization, position=pos, orientation=ori,
+                                                       reorient_faces="skip", check_open="skip", check_disconnected="skip", check_selfintersecting="skip")
+                    get(esrc, obs)  # first evaluation with the faces as given
+                    esrc.reorient_faces()
+                    what = "reorient_faces() after a first evaluation"
+                else:
+                    get(esrc, obs)
+                    attr = rng.choice([a for a in ("dimension", "diameter", "vertices", "polarization", "current", "moment") if getattr(esrc, a, None) is not None])
+                    old = np.asarray(getattr(esrc, attr), float)
+                    new = old * nps.uniform(1.2, 1.7) if attr in ("diameter", "current") else old * nps.uniform(1.2, 1.7, old.shape)
+                    if cls == "CylinderSegment" and attr == "dimension":
+                        new = old * np.array([1.3, 1.3, 1.5, 1.0, 1.0])
+                    setattr(esrc, attr, new)
+                    what = f"{attr} re-assigned after a first evaluation"
+                kw = dict_kwargs(cls, esrc)
+                if cls == "TriangularMesh":
+                    kw["mesh"] = np.asarray(esrc.vertices)[np.asarray(esrc.faces)]
+                want = get(cls, obs, position=pos, orientation=ori, **kw)
+                sc2 = float(np.max(np.abs(want))) + field_scale(esrc) * 1e-9
+                forms["after-edit"] = forms.get("after-edit", 0) + 1
+                for name, f2 in {"getX(src,obs)": lambda: get(esrc, obs), "src.getX(obs)": lambda: getattr(esrc, "get" + X)(obs),
+                                 "sens.getX(src)": lambda: getattr(sens, "get" + X)(esrc), "coll(src).getX(obs)": lambda: getattr(magpy.Collection(esrc.copy()), "get" + X)(obs)}.items():
+                    val = np.asarray(f2())
+                    if np.shape(val) != np.shape(want) or not np.allclose(val, want, rtol=1e-9, atol=1e-9 * sc2):
+                        bad(f"interface:{cls}:after-edit:{name}", f"{name} after {what} differs from the functional interface fed with the object's current attribute values",
+                            {"class": cls, "field": X, "form": name, "edit": what})
+                        break
             # core function in the source frame
             if cls == "Polyline":
                 # core function per segment, summed (every top-level interface goes through the same wrapper; the core does not)
